@@ -58,7 +58,7 @@ class Renamer(ast.NodeTransformer):
 
 
 def main():
-    prog = Program("/repo", inline=False)
+    prog = Program("/repo", inline=False, normal=False)
     overlays = {}
     for rel, src in prog.files.items():
         try:
